@@ -138,7 +138,7 @@ static int              use_barrier;
 static volatile long    started;
 static long             expected;
 static volatile int     inconclusive;
-static unsigned         wd_secs = 60, setup_secs = 30;
+static unsigned         wd_secs = 60, setup_secs = 15;
 #define MAXTID 4096
 static volatile unsigned seen_tid[MAXTID];
 static volatile int      nseen;
@@ -227,6 +227,13 @@ static void dump(const char *status)
 }
 
 static void on_alarm(int s) { dump("TIMEOUT"); _exit(3); }
+static void on_crash(int s)
+{
+    static volatile int once;
+    if (__sync_lock_test_and_set(&once, 1)) { for (;;) pause(); }
+    dump((s == SIGFPE) ? "CRASH-SIGFPE" : (s == SIGSEGV) ? "CRASH-SIGSEGV" : (s == SIGABRT) ? "CRASH-SIGABRT" : "CRASH-SIGNAL");
+    _exit(4);
+}
 
 int main(void)
 {
@@ -235,10 +242,12 @@ int main(void)
     long        st = 0, sp = 0, incr = 1, chunk = 0;
     int         mode = 0;
     signal(SIGALRM, on_alarm);
+    signal(SIGFPE, on_crash); signal(SIGSEGV, on_crash); signal(SIGBUS, on_crash); signal(SIGABRT, on_crash);
     if (getenv("C12_ALARM")) { wd_secs = (unsigned)atoi(getenv("C12_ALARM")); if (wd_secs < 10) wd_secs = 10; }
     if (getenv("C12_SETUP")) { setup_secs = (unsigned)atoi(getenv("C12_SETUP")); }
     if (qthread_initialize() != 0) { printf("INITFAIL\n"); return 2; }
     printf("H %u %u\n", (unsigned)qthread_num_shepherds(), (unsigned)qthread_num_workers());
+    fflush(stdout);
     while (fgets(line, sizeof line, stdin)) {
         if (line[0] == 'Q') {
             sscanf(line + 1, "%31s %ld %ld %ld %ld %d %d", ty, &st, &sp, &incr, &chunk, &mode, &use_barrier);
